@@ -214,6 +214,7 @@ func c02Opts(rng *lib.Rand, idx uint64) lib.GenOpts {
 		Unknown:       30,
 		BigFileId:     4,
 		RepeatPrev:    8,
+		DevDescribe:   30,
 		ZeroFieldDefs: 3,
 		RedefSimilar:  30,
 		// some records behind compressed-timestamp headers: a wire field must decode to its wire
